@@ -61,8 +61,7 @@ type c34Sim struct {
 	snapUtxos      map[string]int64 // confirmed unspent wallet outputs at the last GetUtxos
 	utxoQueryErred bool
 	qUtxosDone     bool // GetUtxos answered, GetMempoolUtxos not yet
-	minedBetween   []*c34Tx
-	watch          func() // called after every chain event of the current operation
+	inOpQueries    int
 }
 
 func c34Key(h bitcoin.Hash, idx uint32) string {
@@ -124,45 +123,47 @@ func (s *c34Sim) mine(n int) {
 	for _, t := range blk {
 		t.state = c34Confirmed
 		s.confd = append(s.confd, t)
-		if s.qUtxosDone {
-			s.minedBetween = append(s.minedBetween, t)
-		}
 	}
 	s.r.AddSim(0, 1)
 }
 
+// chainEvents lets the chain move BETWEEN two operations (never inside one:
+// the statement quantifies over histories, not over growth during one check).
+func (s *c34Sim) chainEvents(when string) {
+	tp := s.r.T
+	if !s.dynamic {
+		return
+	}
+	for k := 0; k < 3; k++ {
+		ev := tp.Weighted("event", 6, 2, 2)
+		if ev == 0 {
+			break
+		}
+		if ev == 1 && len(s.mempool) > 0 {
+			n := 1 + tp.Choose("mine-n", len(s.mempool))
+			s.r.Logf("event mine %d mempool tx(s) [first %s] %s", n, s.mempool[0].label, when)
+			s.mine(n)
+			s.r.Fault("block-mined-between-operations")
+		} else if ev == 2 && len(s.pending) > 0 {
+			t := s.pending[0]
+			s.pending = s.pending[1:]
+			t.state = c34Mempool
+			s.mempool = append(s.mempool, t)
+			s.r.Logf("event broadcast %s %s", t.label, when)
+			s.r.Fault("tx-broadcast-between-operations")
+		}
+	}
+}
+
+// beforeQuery is the fault point in front of every query of an operation.
 func (s *c34Sim) beforeQuery(name string) error {
 	s.nQuery++
 	tp := s.r.T
-	if s.dynamic {
-		for k := 0; k < 2; k++ {
-			ev := tp.Weighted("event", 8, 2, 2)
-			if ev == 0 {
-				break
-			}
-			if ev == 1 && len(s.mempool) > 0 {
-				n := 1 + tp.Choose("mine-n", len(s.mempool))
-				s.r.Logf("event mine %d mempool tx(s) [first %s] before query #%d %s", n, s.mempool[0].label, s.nQuery, name)
-				s.mine(n)
-				s.events++
-				s.r.Fault("block-mined-between-queries")
-				if s.qUtxosDone {
-					s.r.Probe("mined-between-utxo-and-mempool-utxo-query")
-				}
-			} else if ev == 2 && len(s.pending) > 0 {
-				t := s.pending[0]
-				s.pending = s.pending[1:]
-				t.state = c34Mempool
-				s.mempool = append(s.mempool, t)
-				s.events++
-				s.r.Logf("event broadcast %s before query #%d %s", t.label, s.nQuery, name)
-				s.r.Fault("tx-broadcast-between-queries")
-			}
-		}
-		if s.watch != nil {
-			s.watch()
-		}
+	if s.dynamic && s.inOpQueries > 0 && (len(s.mempool) > 0 || len(s.pending) > 0) {
+		// a chain change would have been possible here; deliberately not injected
+		s.r.Probe("chain-change-possible-between-queries-of-one-call(not-injected)")
 	}
+	s.inOpQueries++
 	if s.errors && tp.Chance("query-error", 1, 20) {
 		s.erred = true
 		s.r.Fault("query-error")
@@ -617,8 +618,9 @@ func c34Run(t *testing.T, r *verifsim.Run) {
 	s.dynamic, s.errors = dynamic, errs
 
 	// ================= operation 1: DetermineWalletMainUtxo =================
+	s.chainEvents("before the lookup")
 	m0 := matches(s.confd)
-	s.erred, s.events = false, 0
+	s.erred, s.events, s.inOpQueries = false, 0, 0
 	utxo, err := DetermineWalletMainUtxo(s.pkh, bridge, btc)
 	r.Step()
 	m1 := matches(s.live())
@@ -626,7 +628,7 @@ func c34Run(t *testing.T, r *verifsim.Run) {
 	none := s.registered == [32]byte{}
 	switch {
 	case err != nil:
-		r.Logf("determine -> error (injected=%v events=%d)", detErred, s.events)
+		r.Logf("determine -> error (injected=%v)", detErred)
 		r.Probe("determine-error")
 		if !detErred {
 			if none {
@@ -724,21 +726,19 @@ func c34Run(t *testing.T, r *verifsim.Run) {
 			}
 		}
 	}
-	presentStart, _, whichStart := ownSweepUnspent()
-	everPresent, alwaysPresent := presentStart, presentStart
-	s.watch = func() {
-		p, _, w := ownSweepUnspent()
-		everPresent = everPresent || p
-		alwaysPresent = alwaysPresent && p && w == whichStart
+	s.chainEvents("between lookup and sync check")
+	if param == nil {
+		// re-check the premise after the events (a pending transaction may have been broadcast)
+		if _, inconsistent, _ := ownSweepUnspent(); inconsistent {
+			r.Probe("fresh-clause-premise-not-met-skipped")
+			return
+		}
 	}
-	s.erred, s.events, s.snapUtxos, s.utxoQueryErred, s.qUtxosDone, s.minedBetween = false, 0, nil, false, false, nil
+	present, _, which := ownSweepUnspent()
+	s.erred, s.events, s.snapUtxos, s.utxoQueryErred, s.qUtxosDone, s.inOpQueries = false, 0, nil, false, false, 0
 	err = EnsureWalletSyncedBetweenChains(s.pkh, param, bridge, btc)
 	r.Step()
 	s.qUtxosDone = false
-	s.watch()
-	s.watch = nil
-	presentEnd := everPresent
-	presentStart = alwaysPresent
 	syncErred := s.erred
 
 	if param != nil {
@@ -770,25 +770,18 @@ func c34Run(t *testing.T, r *verifsim.Run) {
 	}
 
 	r.Probe("sync-fresh-wallet")
-	r.Logf("sync(fresh) -> err=%v own-sweep-unspent start=%v end=%v events=%d", err != nil, presentStart, presentEnd, s.events)
-	if presentStart {
+	r.Logf("sync(fresh) -> err=%v own-sweep-unspent=%v", err != nil, present)
+	if present {
 		r.Probe("sync-fresh-own-sweep-present")
-		if whichStart.state == c34Mempool || (len(s.minedBetween) > 0) {
+		if which.state == c34Mempool {
 			r.Probe("sync-fresh-own-sweep-in-mempool")
 		}
 	}
-	if err == nil && presentStart {
-		// the wallet's own sweep output existed, unspent, from before the first query to the end
-		for _, tx := range s.minedBetween {
-			if tx == whichStart {
-				r.Failf("C34:fresh-sync-pass-sweep-mined-between-utxo-queries", "sync check of a fresh wallet passed although its own %s has an unspent output: the transaction was in the mempool when the confirmed UTXOs were read and was mined before the mempool UTXOs were read, so it appeared in neither answer", whichStart.label)
-				return
-			}
-		}
-		r.Failf("C34:fresh-sync-pass-own-sweep-unspent", "sync check of a fresh wallet passed although its own %s (state %d) has an unspent output", whichStart.label, whichStart.state)
+	if err == nil && present {
+		r.Failf("C34:fresh-sync-pass-own-sweep-unspent", "sync check of a fresh wallet passed although its own %s (state %d) has an unspent output", which.label, which.state)
 		return
 	}
-	if err != nil && !presentEnd && !syncErred {
+	if err != nil && !present && !syncErred {
 		r.Failf("C34:fresh-sync-fail-no-own-sweep", "sync check of a fresh wallet failed (%v) although none of the wallet's unspent outputs comes from an own sweep transaction", err)
 		return
 	}
